@@ -198,11 +198,11 @@ def run(tier):
     if tier == "quick":
         mc = dict(types=["x", "z"], maxcols=1, maxuid=2, maxnech=1)
     else:
-        mc = dict(types=["x", "z", "sel"], maxcols=2, maxuid=3, maxnech=2)
+        mc = dict(types=["x", "z", "sel"], maxcols=2, maxuid=3, maxnech=1)
     mcfg = os.path.join(ck.work, "mc.cfg")
     open(mcfg, "w").write(cfg_text(mc, "INVARIANT Inv_Consistent\nPROPERTY JudgeAcceptsRef NoResurrection FrameCells\n"
                                        "VIEW View\nCHECK_DEADLOCK FALSE\n"))
-    res = vlib.run_tlc("MC_DbTable", mcfg, timeout=3000)
+    res = vlib.run_tlc("MC_DbTable", mcfg, timeout=7200)
     if res.violation:
         raise Broken("the reference semantics of DbTable.tla violates its own properties:\n" + res.violation)
     ck.cov["states"] = res.distinct
